@@ -950,7 +950,7 @@ func (env *Env) elabCall(x ECall) (Val, error) {
 			if v.Aux != nil {
 				inner = *v.Aux
 			} else {
-				h := env.st.getHeap(P, "E$uint8", "(Array Int (Array Int Int))")
+				h := env.st.getHeap(P, elemComp(types.Typ[types.Uint8]), "(Array Int (Array Int Int))")
 				inner = app("(Array Int Int)", "select", h, app("Int", "s_arr", v.T))
 			}
 			P.need["str_of_bytes"] = true
